@@ -184,3 +184,21 @@ Fixpoint crun (max : nat) (c : ccfg) (ls : list clabel) : option ccfg :=
   | [] => Some c
   | l :: r => match cstep max c l with Some c' => crun max c' r | None => None end
   end.
+
+(* ---------------------------------------------------------------------------------------------- *)
+(* Installing the limit: SetMaxRoutines puts max permits into the channel with blocking sends.  If the refill ticker is
+   already running while it does so, a tick may take a slot: the last send then blocks, and since the limit has not been
+   handed to anybody yet nothing will ever take a permit - SetMaxRoutines never returns.  (The fill takes longer than one
+   refill period for limits in the millions.)  State: (permits in the channel, sends still to do). *)
+Inductive flabel := FFill | FTick.
+Definition fstep (max : nat) (ticker_running : bool) (c : nat * nat) (l : flabel) : option (nat * nat) :=
+  match l, c with
+  | FFill, (tok, S todo) => if tok <? max then Some (S tok, todo) else None      (* channel full: the send blocks *)
+  | FFill, (_, O) => None
+  | FTick, (tok, todo) => if ticker_running && (tok <? max) then Some (S tok, todo) else None
+  end.
+Fixpoint frun (max : nat) (tr : bool) (c : nat * nat) (ls : list flabel) : option (nat * nat) :=
+  match ls with
+  | [] => Some c
+  | l :: r => match fstep max tr c l with Some c' => frun max tr c' r | None => None end
+  end.
